@@ -85,7 +85,7 @@ def WorldWf (w : World) : Prop := ∀ g, w.cg = some g → NF w.c g
 def TaskWf (c : Core) : Task → Prop
   | .ops self _ _ => NF c self
   | .hook x k arg => NF c x ∧ (∀ y, k = .init → arg = some y → adjacent c x y = true)
-  | .load _ => True
+  | .load _ _ => True
   | .clone _ => True
   | .move item dest => NF c item ∧ NF c dest
   | .moveStr item _ => NF c item
